@@ -305,6 +305,19 @@ fn gen(seed: u64, size: &str, path: &str) {
         }
         execs.push(ex);
     }
+    // fork, fixed scenarios: the leading branch is dropped while the other still has k frames pending, the survivor
+    // collects them and goes on; both flavours, either branch, k = 1 and k = capacity
+    for &(cap, variant, leader, k) in [(1i64, "rc", "A", 1i64), (3, "rc", "A", 3), (3, "rc", "B", 1), (4, "rc", "B", 4),
+                                       (3, "ref", "A", 3), (4, "ref", "B", 1)].iter() {
+        let other = if leader == "A" { "B" } else { "A" };
+        let mut ex = vec![json!({"ev":"reset","comp":"fork","cfg":{"cap":cap,"start":cap - 1,"variant":variant,"srclen":-1}})];
+        ex.push(json!({"ev":"next","a":{"branch":leader}}));
+        ex.push(json!({"ev":"next","a":{"branch":other}}));
+        for _ in 0..k { ex.push(json!({"ev":"next","a":{"branch":leader}})); }
+        ex.push(json!({"ev":"drop","a":{"branch":leader}}));
+        for _ in 0..k + 3 { ex.push(json!({"ev":"next","a":{"branch":other}})); }
+        execs.push(ex);
+    }
     // buffered
     for _ in 0..(if thorough { 400 } else { 60 }) {
         let cap = if rng.chance(1, 2) { rng.range(1, 4) } else { rng.range(5, 32) } as usize;
